@@ -155,7 +155,7 @@ def pend_ok(it, c, exact=True):
     nodes = c.fields['_nodelist']
     s = c.fields['token_reader'].fields['s']
     pc, pp = c.fields['_pending_chars'], c.fields['_pending_chars_pos']
-    base = nodes.exact if exact else nodes.order
+    base = z_and(nodes.exact if exact else nodes.order, zint(nodes.end) <= zint(V.slen(s)), zint(nodes.end) >= 0)
     n = V.slen(pc)
     if pp is None:
         return z_and(base, V.z_eq(n, 0))
@@ -198,6 +198,9 @@ def register(reg):
         return z_and(V.z_implies(V.zbool(old_nodes.nonempty), z_and(V.zbool(ns.nonempty), f == of)),
                      V.z_implies(z_and(V.zbool(ns.exact), V.zbool(ns.nonempty), z_not(V.zbool(old_nodes.nonempty))),
                                  f == zint(old_nodes.end)),
+                     V.z_implies(z_and(V.zbool(ns.order), V.zbool(ns.nonempty), z_not(V.zbool(old_nodes.nonempty))),
+                                 f >= zint(old_nodes.end)),
+                     V.z_implies(V.zbool(ns.nonempty), f <= zint(ns.end)),
                      V.z_implies(z_not(V.zbool(ns.nonempty)), zint(ns.end) == zint(old_nodes.end)),
                      zint(ns.end) >= zint(old_nodes.end))
     reg.spec('last_appended')(lambda it, c: c.fields['_nodelist'].appended[-1])
@@ -312,6 +315,7 @@ def register(reg):
             it.ctx.assume(z3.Implies(V.zbool(cur.nonempty), z3.And(ns.nonempty, zint(ns.first) == zint(cur.first if cur.first is not None else 0))))
             # consecutive nodes: the first one starts where the (then empty) list ended
             it.ctx.assume(z3.Implies(z3.And(ns.exact, ns.nonempty, z3.Not(V.zbool(cur.nonempty))), zint(ns.first) == zint(cur.end)))
+            it.ctx.assume(z3.Implies(z3.And(ns.order, ns.nonempty, z3.Not(V.zbool(cur.nonempty))), zint(ns.first) >= zint(cur.end)))
             it.ctx.assume(z3.Implies(z3.Not(ns.nonempty), zint(ns.end) == zint(cur.end)))
             it.ctx.assume(z3.Implies(ns.nonempty, zint(ns.first) <= zint(ns.end)))
         return ns
@@ -442,17 +446,19 @@ def register(reg):
                                 ('first-node-kept', 'first_kept(self, old(self._nodelist))'),
                                 ('strict:nodes-collected-before-the-error-are-kept-consistent', 'implies(not %s, pend_ok(self))' % TOL),
                                 ('ordered-cover-kept', 'cov_weak(self)'),
+                                ('reader-never-moves-backwards', '%s >= old(%s)' % (RD, RD)),
                                 ('reader-in-range', '0 <= %s and %s <= len(%s)' % (RD, RD, S))]},
                 EXC + 'LatexWalkerParseError': {
                     'when': 'not %s' % TOL, 'make': make_parse_error,
                     'ensures': [LOCATED, ('finalized', 'self._finalized == True'), ('nothing-pending', 'self._pending_chars == ""'),
                                 ('first-node-kept', 'first_kept(self, old(self._nodelist))'),
                                 ('strict:nodes-collected-before-the-error-are-kept-consistent', 'pend_ok(self)'),
+                                ('reader-never-moves-backwards', '%s >= old(%s)' % (RD, RD)),
                                 ('reader-in-range', '0 <= %s and %s <= len(%s)' % (RD, RD, S))]}},
-        modifies=['self._pending_chars', 'self._pending_chars_pos', 'self.token_reader._pos', 'self.parsing_state',
-                  'self._stop_token_condition_met', 'self._stop_token_condition_met_token', 'self._finalized',
-                  'self._stop_nodelist_condition_met', 'self._stop_condition_stop_data', 'self._reached_end_of_stream',
-                  'self._nodelist']))
+        modifies=POT_MODIFIES + [('self._finalized', 'bool'), ('self._reached_end_of_stream', 'bool'),
+                                 ('self._stop_condition_stop_data',
+                                  lambda it, hint: (None if it.ctx.choose(2, 'stop data') == 0 else
+                                                    AbsVal(it.ctx.fresh_int('stop_data'), 'stop_data')))]))
     c_pt.extra_olds = ['self._nodelist', RD]
     reg.add_loop(LoopContract(
         COLL + '.process_tokens', 0,
